@@ -101,9 +101,10 @@ LAYOUTS = [
     ('rsz', dict(lay='rsz:1:2')),
     ('cont1', dict(lay='cont1')),
     ('cont2', dict(lay='cont2')),
+    ('struct', dict(lay='struct')),
     ('dtnull', dict(lay='dtnull')),
 ]
-LAYOUTS_QUICK = ['typed', 'typed-conv', 'flex-contig', 'vec2', 'idx', 'rsz', 'cont2', 'dtnull']
+LAYOUTS_QUICK = ['typed', 'typed-conv', 'flex-contig', 'vec2', 'idx', 'rsz', 'cont2', 'struct', 'dtnull']
 
 
 def forms_for(L, st, ct, sd):
